@@ -703,6 +703,10 @@ int main(void)
 		int first = 1;
 		int i;
 
+		/* watchdog per case: a run-away loop in the library must not stall the whole check (the runner
+		   records the unanswered case as crashed and resumes after it) */
+		alarm(30);
+
 		line[strcspn(line, "\n")] = 0;
 		nscripts = 0;
 		dead = 0;
